@@ -112,6 +112,7 @@ func (ex *Exec) atObligations(fr *Frame, st *State, kind string, in ssa.Instruct
 	}
 	for _, cl := range clauses {
 		env := ex.specEnv(fr, st, in.Pos())
+		env.loopIdx = ex.enclosingRangeIdx(fr, in)
 		env.laxLocals = kind == "return"
 		for k, v := range vars {
 			env.vars[k] = v
@@ -120,4 +121,42 @@ func (ex *Exec) atObligations(fr *Frame, st *State, kind string, in ssa.Instruct
 		cond := ex.evalSpecBool(env, cl.Expr)
 		ex.obligeSpec(st, "at-"+kind, ex.siteWhat(in)+":"+cl.Label, cond, cl, in)
 	}
+	// ghost updates attached to the instruction
+	sets := append([]GhostSet(nil), c.AtSets[kind]...)
+	if ord := ex.prog.kindOrdinal(in, kind); ord >= 0 {
+		sets = append(sets, c.AtSets[fmt.Sprintf("%s#%d", kind, ord)]...)
+	}
+	for _, g := range sets {
+		env := ex.specEnv(fr, st, in.Pos())
+		env.loopIdx = ex.enclosingRangeIdx(fr, in)
+		for k, v := range vars {
+			env.vars[k] = v
+		}
+		ex.curClause = "at " + kind + " set " + g.Name
+		ex.setGhost(st, g.Name, ex.evalSpec(env, g.Expr))
+	}
+}
+
+// enclosingRangeIdx: the hidden index variable of the innermost range loop around an
+// instruction (inside the body it holds the index of the current iteration).
+func (ex *Exec) enclosingRangeIdx(fr *Frame, in ssa.Instruction) *ssa.Alloc {
+	if in == nil || in.Block() == nil {
+		return nil
+	}
+	var best *loopInfo
+	for _, li := range fr.loops {
+		if !li.blocks[in.Block()] {
+			continue
+		}
+		if rangeIndexAlloc(li) == nil {
+			continue
+		}
+		if best == nil || len(li.blocks) < len(best.blocks) {
+			best = li
+		}
+	}
+	if best == nil {
+		return nil
+	}
+	return rangeIndexAlloc(best)
 }
